@@ -42,3 +42,14 @@ def hashes(variant):
     if variant == "noti":
         return ["", NONE]
     return [""]
+
+
+def aead(variant):
+    """ChaCha20 avx2/ssse3/ref x Poly1305 sse2/donna64/donna32 x Salsa20 avx2/asm/sse2int/ref x AEGIS aesni/soft x GCM on/off"""
+    if variant == "native":
+        return ["", CHAIN[2], CHAIN[5], NONE, NOAES]
+    if variant == "noasm":
+        return ["", NONE]
+    if variant == "noti":
+        return [""]
+    return [""]
